@@ -139,6 +139,8 @@ def register_dispatch(E):
     E.add_opaque(OpaqueClass('Request', dotted='werkzeug.wrappers.request.Request', truthy=True, attrs={
         'path': TStr, 'method': TStr, 'url_root': TStr, 'query_string': TBytes}))
     E.add_opaque(OpaqueClass('Response', dotted='werkzeug.wrappers.response.Response', truthy=True))
+    from contracts import errors as _errors
+    _errors.register_negotiation(E)
 
     # ---- callee summaries -----------------------------------------------------------------
     RESERVED = Z.empty_set(Z.Str)
